@@ -35,6 +35,7 @@ MODULES = [
     ("src/query/view/par/seal/repeat.rs", "par.rs", "verif_kani"),
     ("src/entities/mod.rs", "batch.rs", "verif_kani"),
     ("src/resource/contains/mod.rs", "res.rs", "verif_kani"),
+    ("src/system/schedule/mod.rs", "stages.rs", "verif_kani"),
 ]
 
 # (file, regex matching the line of the `fn`, attribute lines to insert directly above it)
